@@ -271,7 +271,11 @@ where
                     (None, None, vec![])
                 }
             }
-            SpacesArgs::SpaceUpdate { .. } => unimplemented!(),
+            // Rotating the space's entropy is not supported yet, reject the message instead of
+            // crashing on input a remote peer can choose.
+            SpacesArgs::SpaceUpdate { .. } => {
+                return Err(ManagerError::UnsupportedMessage(message.hash()));
+            }
             // Received encrypted application data for a space.
             SpacesArgs::Application { space_id, .. } => {
                 let Some(space) = self.space(*space_id).await? else {
@@ -738,6 +742,9 @@ where
 
     #[error("unexpected message variant, expected auth {0}")]
     IncorrectMessageVariant(Hash),
+
+    #[error("received message {0} of a kind which is not supported yet")]
+    UnsupportedMessage(Hash),
 
     #[error(transparent)]
     Rng(#[from] RngError),
